@@ -21,14 +21,14 @@ BOUND = ("dimension-wise: d=2 with (lmin,lmax) in {(1,2),(1,3),(2,3)}, d=3 with 
          "versions {0,1,2}, refinements-before-extend {1,2,3}, automatic_extend_split, split_single_dim; cell: d in {2,3}, lmin=lmax in {1,2,3} (d=3: {1,2}), "
          "TrapezoidalGrid with boundary; domains [0,1]^d and [-0.5,1.5]^d; driver component: 40 x (Genz family member, random smooth function, or a sum of narrow one-dimensional Gaussians at random corners), norms {1,2,inf}; "
          "a systematic core (each version x boundary on/off, no rebalancing, d=2, (1,3), corner-peak driver) plus seeded random configurations; every stop index of histories with <=8 (d=3: <=4) refinement steps, each reached by a fresh run with max_evaluations (quick: first, last and two "
-         "other stop indices); probe points: 8 random + the full interior lattice of the initial level; three fixed anchor cases (the two known losses + the clean default) run first; seeded pseudo-random selection")
+         "other stop indices); probe points: 8 random + the full interior lattice of the initial level; fixed anchor cases run first (the two known losses, the clean default, and an initial level 8 with refinement next to one boundary only: more than 128 points per dimension, sampled basis); extend-split core with split_single_dim and direction-symmetric drivers; seeded pseudo-random selection")
 RULE = BOUND + "; a case is one (configuration, driver, stop limit); non-trivial = at least one refinement step before the stop"
 CLAUSES = {
     "B.int.hat": "dimension-wise, standard basis: at the stop every component carrying a hierarchical hat basis function of the initial sparse-grid space has its analytic integral (rel 1e-10 / abs 1e-13)",
     "B.int.combo": "same for the random linear combinations of the exact functions",
     "B.int.linear": "dimension-wise, modified basis: the components 1, x_1..x_d have their analytic integrals (rel 1e-10 / abs 1e-13)",
     "B.int.multilinear": "extend-split and cell: the components prod_{j in S} x_j (all S) have their analytic integrals (rel 1e-10 / abs 1e-13)",
-    "B.interp.exact": "dimension-wise, standard basis: instance(points) reproduces the hat basis functions and their combinations at the probe points (rel 1e-10 / abs 1e-12)",
+    "B.interp.exact": "dimension-wise, standard basis: instance(points) (asked twice: identical answers) reproduces the hat basis functions and their combinations at the probe points (rel 1e-10 / abs 1e-12)",
 }
 
 S_PERFORM = "sparseSpACE.spatiallyAdaptiveBase:SpatiallyAdaptivBase.performSpatiallyAdaptiv"
@@ -73,7 +73,14 @@ def exact_space(case):
     if cfg["strategy"] == "dimwise":
         if cfg["grid"].get("modified"):
             return "linear", [["const", 1.0]] + [["mono", [j]] for j in range(d)]
-        return "hat", hat_basis(d, case["lmin"], case["lmax"], cfg["grid"].get("boundary", True))
+        basis = hat_basis(d, case["lmin"], case["lmax"], cfg["grid"].get("boundary", True))
+        if case.get("basis_sample"):     # large initial levels: the d-linear corner functions + a seeded sample of the hierarchical basis
+            r = np.random.RandomState((case["combo_seed"] + 17) % (2 ** 32))
+            corners = [h for h in basis if all(k == 0 for k in h[1])]
+            rest = [h for h in basis if any(k != 0 for k in h[1])]
+            pick = sorted(r.choice(len(rest), size=min(len(rest), int(case["basis_sample"])), replace=False).tolist())
+            basis = corners + [rest[i] for i in pick]
+        return "hat", basis
     subsets = [list(S) for r in range(d + 1) for S in itertools.combinations(range(d), r)]
     return "multilinear", [["mono", S] for S in subsets]
 
@@ -161,6 +168,9 @@ def check_stop(ctx, case):
             c = dc.clone(s)
             with quiet():
                 vals = np.array(c(P), float)
+                vals_again = np.array(c(P), float)      # idempotence of the query on the same instance
+            ctx.check("B.interp.exact", np.array_equal(vals, vals_again), S_DWI, st + "-second-query",
+                      "the same interpolation query asked twice on one instance gives different values (max diff %s)" % np.max(np.abs(vals - vals_again)))
             want = f.values(np.array(P))
             diff = np.abs(vals[:, 1:] - want[:, 1:])
             tolm = 1e-12 + 1e-10 * np.abs(want[:, 1:])
@@ -237,6 +247,15 @@ def core_configs(ctx):
         cfg = {"strategy": "dimwise", "a": [0.0, 0.0], "b": [1.0, 1.0], "norm": "inf", "grid": {"type": "GlobalTrapezoidal", "boundary": False, "modified": True},
                "opts": {"version": version, "rebalancing": False}}
         out.append((cfg, (1, 2 + vi % 2), ["addgauss", [600.0, 600.0], [[0.8, 0.3], [0.3, 0.8], [0.78, 0.22]][vi]]))
+    # extend-split with the single-dimension split policy and drivers with the same profile in every direction (twin errors tie ->
+    # simultaneous split in several dimensions -> calculate_new_twin_errors evaluates temporary parent areas)
+    for d, nrbe, drv in ((2, 1, ["gauss", [30.0, 30.0], [0.3, 0.3]]), (2, 2, ["gauss", [30.0, 30.0], [0.3, 0.3]]), (2, 1, ["corner", [4.0, 4.0]]),
+                         (3, 1, ["gauss", [30.0, 30.0, 30.0], [0.3, 0.3, 0.3]])):
+        if d == 3 and ctx.quick() and nrbe != 1:
+            continue
+        cfg = {"strategy": "extend", "a": [-1.0, 0.5, 2.0][:d], "b": [2.0, 1.5, 5.0][:d], "norm": "inf", "grid": {"type": "Trapezoidal", "boundary": True},
+               "opts": {"version": 0, "number_of_refinements_before_extend": nrbe, "split_single_dim": True}}
+        out.append((cfg, (1, 2), drv))
     for boundary in (True, False):
         cfg = {"strategy": "dimwise", "a": [0.0, 0.0], "b": [1.0, 1.0], "norm": "inf", "grid": {"type": "GlobalTrapezoidal", "boundary": boundary},
                "opts": {"version": 6, "rebalancing": True}}
@@ -261,7 +280,10 @@ def anchor_cases():
     lat2 = [[i / 4, j / 4] for i in range(1, 4) for j in range(1, 4)]
     lat3 = [[i / 8, j / 8] for i in range(1, 8) for j in range(1, 8)]
     base = {"a": [0.0, 0.0], "b": [1.0, 1.0], "norm": "inf", "strategy": "dimwise", "grid": grid}
+    big = {"kind": "stop", "cfg": dict(base, opts={"version": 6, "rebalancing": False}), "lmin": 1, "lmax": 8, "basis_sample": 14,
+           "driver": ["addgauss", [40000.0, 40000.0], [0.999, 0.4]], "combo_seed": 5, "probe": [[0.3, 0.6], [0.9921875, 0.4], [0.71, 0.12], [0.5, 0.5]]}
     return [
+        dict(big, max=2948, index=1), dict(big, max=3135, index=5),     # >128 points per dimension, refinement next to ONE boundary only
         {"kind": "stop", "cfg": dict(base, opts={"version": 6, "rebalancing": True}), "lmin": 1, "lmax": 2, "driver": drv, "combo_seed": 1, "probe": lat2, "max": 52, "index": 2},
         {"kind": "stop", "cfg": dict(base, opts={"version": 2, "rebalancing": False}), "lmin": 1, "lmax": 3, "driver": drv, "combo_seed": 1, "probe": lat3, "max": 150, "index": 5},
         {"kind": "stop", "cfg": dict(base, opts={"version": 6, "rebalancing": False}), "lmin": 1, "lmax": 3, "driver": drv, "combo_seed": 1, "probe": lat3, "max": 150, "index": 5},
